@@ -185,31 +185,8 @@ func checkC16Scenario(spec *PropSpec, repo, tier string, seed int, workers int, 
 		if sched != nil {
 			return sched
 		}
-		n, err := newNativeRunner(repo)
-		if err != nil {
-			return nil
-		}
-		// instrument wire.go and command.go
-		var repl map[string]map[string]string
-		data, _ := os.ReadFile(n.overlay)
-		json.Unmarshal(data, &repl)
-		for _, f := range []string{"wire.go", "command.go"} {
-			src, err := os.ReadFile(filepath.Join(repo, f))
-			if err != nil {
-				continue
-			}
-			out, _, err := instrumentSched(f, src)
-			if err != nil {
-				continue
-			}
-			real := filepath.Join(n.scratch, "instr_"+f)
-			os.WriteFile(real, out, 0o644)
-			repl["Replace"][filepath.Join(repo, f)] = real
-		}
-		data, _ = json.MarshalIndent(repl, "", " ")
-		os.WriteFile(n.overlay, data, 0o644)
-		sched = n
-		return n
+		sched = newSchedRunner(repo)
+		return sched
 	}
 	defer func() {
 		if sched != nil {
@@ -355,4 +332,32 @@ func maxInt(a, b int) int {
 		return a
 	}
 	return b
+}
+
+// newSchedRunner is a native runner whose overlay also replaces wire.go and
+// command.go by their schedule-point-instrumented versions.
+func newSchedRunner(repo string) *nativeRunner {
+	n, err := newNativeRunner(repo)
+	if err != nil {
+		return nil
+	}
+	var repl map[string]map[string]string
+	data, _ := os.ReadFile(n.overlay)
+	json.Unmarshal(data, &repl)
+	for _, f := range []string{"wire.go", "command.go"} {
+		src, err := os.ReadFile(filepath.Join(repo, f))
+		if err != nil {
+			continue
+		}
+		out, _, err := instrumentSched(f, src)
+		if err != nil {
+			continue
+		}
+		real := filepath.Join(n.scratch, "instr_"+f)
+		os.WriteFile(real, out, 0o644)
+		repl["Replace"][filepath.Join(repo, f)] = real
+	}
+	data, _ = json.MarshalIndent(repl, "", " ")
+	os.WriteFile(n.overlay, data, 0o644)
+	return n
 }
